@@ -388,6 +388,7 @@ def _one(src, **kw):
 def _v3a(rep, src, validated, ok_struct_roots):
     f = _one(src, name="differentially_private", self_ty="Reduce", file=DP + "mod.rs")
     env = FnEnv(f)
+    env.helpers = {h.name: h for h in src.fns if h.file == f.file and not h.self_ty and not h.test and h.body and h.name != f.name}  # private helpers of the module are read through by norm()
     fq = f.qual
     ps = [(n, t) for n, t in env.params if struct_ty(t) == "DpParameters"]
     if len(ps) != 1:
